@@ -345,6 +345,13 @@ def bounded(opts):
         p1 = AngularCoordinates(np.array([[ra, dec]]))
         p2 = AngularCoordinates(np.array([[float(ra2), float(d2)]]))
         got = float(p1.distance(p2).data[0])
+        # the same pair through the other calling patterns (many-vs-one as for patch radii, one-vs-many): same number
+        pN = AngularCoordinates(np.array([[ra, dec], [ra, dec], [ra, dec]]))
+        qN = AngularCoordinates(np.array([[float(ra2), float(d2)]] * 3))
+        for label, val in (("many_vs_one", pN.distance(p2).data), ("one_vs_many", p1.distance(qN).data), ("many_vs_many", pN.distance(qN).data)):
+            evals += 1
+            if not np.all(val == got):
+                bad("distance_calling_pattern", dict(pattern=label, p=(ra, dec), q=(float(ra2), float(d2)), separation=s), [float(v) for v in val], got, "identical")
         u1 = [mp.cos(ra) * mp.cos(dec), mp.sin(ra) * mp.cos(dec), mp.sin(dec)]
         r2, dd2 = mp.mpf(float(ra2)), mp.mpf(float(d2))
         u2 = [mp.cos(r2) * mp.cos(dd2), mp.sin(r2) * mp.cos(dd2), mp.sin(dd2)]
